@@ -78,6 +78,7 @@ type inputIter interface {
 
 type jsonInputIter struct {
 	next   func() (any, error)
+	dec    *json.Decoder
 	ir     *inputReader
 	fname  string
 	offset int64
@@ -90,7 +91,7 @@ func newJSONInputIter(r io.Reader, fname string) inputIter {
 	dec := json.NewDecoder(ir)
 	dec.UseNumber()
 	next := func() (v any, err error) { err = dec.Decode(&v); return }
-	return &jsonInputIter{next: next, ir: ir, fname: fname}
+	return &jsonInputIter{next: next, dec: dec, ir: ir, fname: fname}
 }
 
 func (i *jsonInputIter) Next() (any, bool) {
@@ -117,9 +118,18 @@ func (i *jsonInputIter) Next() (any, bool) {
 		return i.err, true
 	}
 	if buf := i.ir.buf; buf != nil && buf.Len() >= 16*1024 {
-		i.offset += int64(buf.Len())
-		i.line += bytes.Count(buf.Bytes(), []byte{'\n'})
-		buf.Reset()
+		// Discard the lines already decoded, but not the rest of the buffer
+		// because the decoder reads ahead of the current value.
+		bs := buf.Bytes()[:i.dec.InputOffset()-i.offset]
+		if j := max(bytes.LastIndexByte(bs, '\n'), bytes.LastIndexByte(bs, '\r')); j >= 0 {
+			if bs[j] == '\n' {
+				j++
+			} // otherwise keep '\r' because it may be followed by '\n'
+			bs = bs[:j]
+		}
+		i.offset += int64(len(bs))
+		i.line += countNewlines(bs)
+		buf.Next(len(bs))
 	}
 	return v, true
 }
@@ -137,7 +147,7 @@ func newStreamInputIter(r io.Reader, fname string) inputIter {
 	ir := newInputReader(r)
 	dec := json.NewDecoder(ir)
 	dec.UseNumber()
-	return &jsonInputIter{next: newJSONStream(dec).next, ir: ir, fname: fname}
+	return &jsonInputIter{next: newJSONStream(dec).next, dec: dec, ir: ir, fname: fname}
 }
 
 type nullInputIter struct {
